@@ -40,6 +40,11 @@ Reasons(r) ==
             \cup (IF o.ok /\ Legal(PT, T, s, 1, 1) /\ ~LegalB(PT, T, s, 1, 1, o.single) THEN {<<"same-variable-different-code", s>>} ELSE {})
             \cup (IF o.len >= 0 /\ ~EndOK(T, 1, T[1].s + o.len) THEN {<<"match-len", s>>} ELSE {})
           : i \in 1..5 }
+    \* the kept text of a cut pattern is copied from the code: when the parsed pattern has the structure of the code but
+    \* a kept leaf reads differently, the pattern text was altered on its way to the matcher
+    \cup (IF r.mode = "cut" /\ ~CutPremise(r) /\ (\A k \in 1..Len(r.holes) : HasVar(r.PT, r.holes[k].name))
+             /\ (r.tail.name # "" => HasVar(r.PT, r.tail.name)) /\ SameKinds(r.PT, r.T, 1, 1, Holes(r), TailOf(r))
+          THEN {<<"pattern-text-altered", "smart">>} ELSE {})
     \cup (IF r.mode = "cut" /\ CutPremise(r)
           THEN UNION { LET s == Levels[i]  o == r.outs[s] IN
                        IF CutOK(PT, T, Holes(r), TailOf(r), o) THEN {} ELSE {<<"cut-not-matched", s>>}
